@@ -52,6 +52,8 @@ def run(ctx):
             flow.rule_integrity(ctx, u.bi, "C05.OK", u.where, ("Ready(Err)",), "the returned error")
             if u.container in ("array", "vec"):
                 joinlike.rule_zero(ctx, M, u, "C05.ZERO", ("Ready(Ok)",))
+        with ctx.renamed({"C02.UTIL": "C05.DISCARD"}):
+            c02.rule_util(ctx, M)
         joinlike.rule_zero_tuple0(ctx, M, "try_join", "C05.ZERO", "Ready(Ok)")
         na = 1 if cfg == "core" else 2
         ctx.floor("C05.POS", cfg, 78 + na + 12 + na)
